@@ -780,6 +780,7 @@ OPNMIDI_EXPORT void opn2_positionSeek(struct OPN2_MIDIPlayer *device, double sec
     play->realTime_panic();
     play->m_setup.delay = play->m_sequencer->seek(seconds, play->m_setup.mindelay);
     play->m_setup.carry = 0.0;
+    play->m_setup.tick_skip_samples_delay = 0;
 #else
     ADL_UNUSED(device);
     ADL_UNUSED(seconds);
@@ -795,6 +796,10 @@ OPNMIDI_EXPORT void opn2_positionRewind(struct OPN2_MIDIPlayer *device)
     assert(play);
     play->realTime_panic();
     play->m_sequencer->rewind();
+    // Nothing of the interrupted period is left to wait for: the song starts right now
+    play->m_setup.delay = 0.0;
+    play->m_setup.carry = 0.0;
+    play->m_setup.tick_skip_samples_delay = 0;
 #else
     ADL_UNUSED(device);
 #endif
